@@ -518,6 +518,96 @@ theorem go_filter (c : Bool) (keep : Container.Item → Bool) (its : List Contai
               simp only [setTag, Option.map_some, Option.toList_some, List.singleton_append]
               rw [Lemmas.Export.lookup_cons_eq, hpt, Lemmas.Export.lookup_cons_eq]
 
+/-- the loop makes one main-loop item of every reader item -/
+theorem go_length (c : Bool) (its : List Container.Item) :
+    ∀ tag X IS, go Keylog.srcHexClass c tag its = .ok (X, IS) → X.length = its.length := by
+  induction its with
+  | nil => intro tag X IS h; simp only [go, Except.ok.injEq, Prod.mk.injEq] at h; rw [← h.1]; rfl
+  | cons it rest ih =>
+    intro tag X IS h
+    rw [go_cons] at h
+    cases h1 : one c tag it with
+    | error e => rw [h1] at h; cases h
+    | ok v =>
+      obtain ⟨x, oi⟩ := v
+      rw [h1] at h
+      simp only at h
+      cases hg : go Keylog.srcHexClass c (tag + 1) rest with
+      | error e => rw [hg] at h; cases h
+      | ok w =>
+        obtain ⟨Xr, ISr⟩ := w
+        rw [hg] at h
+        simp only [Except.ok.injEq, Prod.mk.injEq] at h
+        rw [← h.1, List.length_cons, List.length_cons, ih _ _ _ hg]
+
+theorem keptOf_all (its : List Container.Item) :
+    ∀ X : List (Item Keylog.Key), X.length = its.length → keptOf (fun _ => true) its X = X := by
+  induction its with
+  | nil => intro X h; cases X with | nil => rfl | cons _ _ => simp at h
+  | cons it its ih =>
+    intro X h
+    cases X with
+    | nil => simp at h
+    | cons x X => simp only [keptOf, if_true, ih X (by simpa using h)]
+
+/-- the read loop started at another tag: the same abort, or the same items up to the tags -/
+theorem go_shift (c : Bool) (its : List Container.Item) (tag tag' : Nat) :
+    (∀ e, go Keylog.srcHexClass c tag its = .error e → go Keylog.srcHexClass c tag' its = .error e) ∧
+    (∀ X IS, go Keylog.srcHexClass c tag its = .ok (X, IS) →
+      ∃ X' IS', go Keylog.srcHexClass c tag' its = .ok (X', IS') ∧ Zip (Alike (lookup IS) (lookup IS')) X X') := by
+  constructor
+  · induction its generalizing tag tag' with
+    | nil => intro e h; simp [go] at h
+    | cons it rest ih =>
+      intro e h
+      rw [go_cons] at h ⊢
+      rw [one_tag_indep c tag tag']
+      cases h1 : one c tag it with
+      | error e' => rw [h1] at h; simp only [Except.map]; exact h
+      | ok v =>
+        obtain ⟨x, oi⟩ := v
+        rw [h1] at h
+        simp only [Except.map] at h ⊢
+        cases hg : go Keylog.srcHexClass c (tag + 1) rest with
+        | error e' =>
+          rw [hg] at h
+          simp only [Except.error.injEq] at h
+          subst h
+          rw [ih (tag + 1) (tag' + 1) e' hg]
+        | ok w => rw [hg] at h; cases h
+  · intro X IS h
+    obtain ⟨X', IS', g1, g2⟩ := go_filter c (fun _ => true) its tag tag' X IS h
+    have hft : its.filter (fun _ => true) = its := List.filter_eq_self.mpr (fun _ _ => rfl)
+    rw [hft] at g1
+    rw [keptOf_all its X (go_length c its tag X IS h)] at g2
+    exact ⟨X', IS', g1, g2⟩
+
 end ReadLoop
+
+section Alike2
+variable (info₁ info₂ : Nat → Pipeline.Info)
+
+theorem zip_alike_dsbs (D : List (List Keylog.Key)) {xs ys : List (Item Keylog.Key)}
+    (hz : Zip (Alike info₁ info₂) xs ys) : Zip (Alike info₁ info₂) (D.map Item.dsb ++ xs) (D.map Item.dsb ++ ys) := by
+  induction D with
+  | nil => exact hz
+  | cons d D ih => exact Zip.cons rfl ih
+
+/-- the TLS conversations of two item lists that are alike up to their tags -/
+theorem tlsFrames_alike (o : Opts) (fk : Option (List Keylog.Key)) {xs ys : List (Item Keylog.Key)}
+    (hz : Zip (Alike info₁ info₂) xs ys) : tlsFrames H P info₁ o fk xs = tlsFrames H P info₂ o fk ys := by
+  have e1 := renum_retag 0 xs
+  have e2 := renum_retag 0 ys
+  rw [← renum_alike hz 0] at e2
+  calc tlsFrames H P info₁ o fk xs
+      = tlsFrames H P info₁ o fk ((renum 0 xs).map (itemRetag (tagAt 0 xs))) := by rw [e1]
+    _ = tlsFrames H P (info₁ ∘ tagAt 0 xs) o fk (renum 0 xs) := tlsFrames_nat H P _ _ o fk _
+    _ = tlsFrames H P (info₂ ∘ tagAt 0 ys) o fk (renum 0 xs) :=
+        tlsFrames_info_congr H P _ _ o fk _
+          (fun p hp => tables_alike hz 0 p (ExportProps.mem_tcpView_frame o _ p hp))
+    _ = tlsFrames H P info₂ o fk ((renum 0 xs).map (itemRetag (tagAt 0 ys))) := (tlsFrames_nat H P _ _ o fk _).symm
+    _ = tlsFrames H P info₂ o fk ys := by rw [e2]
+
+end Alike2
 
 end TLX.Props.ExportInputs2
